@@ -5,6 +5,7 @@
   Model: SfModel/ErrApi.lean; correspondence and twin runs: vlib/c09errapi.py (harness/errapi.c).
 -/
 import SfModel.ErrApi
+import SfModel.Generated.ErrorTable
 namespace Sf.C09ErrApi
 open Sf.ErrApi
 
@@ -85,7 +86,40 @@ theorem sfErrorStr_ret (internal : Int) (msgOf : Int → List Nat) (isNull : Boo
     (sfErrorStr internal msgOf isNull s (some b) len).1 = 0 ∧ (sfErrorStr internal msgOf isNull s none len).1 = internal ∧
     (sfErrorStr internal msgOf isNull s (some b) len).2.1 = some (boundedCopy (msgOf (if isNull then s.sfErrno else s.error)) len b) := ⟨rfl, rfl, rfl⟩
 
+/-- the message of error number `k` in the running library's table (regenerated on every run), the fallback text outside it -/
+def tableMsg (k : Int) : List Nat :=
+  if k < 0 then Sf.Generated.badErrnum
+  else match Sf.Generated.errTable.find? (fun e => e.1 = k.toNat) with
+    | some e => e.2
+    | none => Sf.Generated.badErrnum
+
+/-- every string of the table (and the fallback) is shorter than 256 bytes and holds no NUL: a 256-byte buffer always receives the WHOLE message -/
+theorem table_strings_fit :
+    Sf.Generated.errTable.all (fun e => decide (e.2.length < 256) && e.2.all (· != 0)) = true ∧ Sf.Generated.badErrnum.length < 256 := by
+  constructor <;> decide +kernel
+
+theorem tableMsg_length (k : Int) : (tableMsg k).length < 256 := by
+  have h := table_strings_fit
+  unfold tableMsg
+  split
+  · exact h.2
+  · split
+    · rename_i e he
+      have hm := List.mem_of_find?_eq_some he
+      have := (List.all_eq_true.mp h.1) e hm
+      simp only [Bool.and_eq_true, decide_eq_true_eq] at this
+      exact this.1
+    · exact h.2
+
+/-- **sf_error_str with a buffer of 256 bytes or more delivers the complete message of the table, terminated, for every error state** -/
+theorem sfErrorStr_table_whole (internal : Int) (isNull : Bool) (s : St) (b : List Nat) (len : Nat) (hl : 256 ≤ len) :
+    ∃ out, (sfErrorStr internal tableMsg isNull s (some b) len).2.1 = some out ∧
+      out.take ((tableMsg (errnumOf isNull s)).length + 1) = tableMsg (errnumOf isNull s) ++ [0] := by
+  refine ⟨boundedCopy (tableMsg (errnumOf isNull s)) len b, rfl, ?_⟩
+  exact boundedCopy_whole _ _ _ (by have := tableMsg_length (errnumOf isNull s); omega)
+
 /-! non-vacuity -/
+example : tableMsg 0 = [78, 111, 32, 69, 114, 114, 111, 114, 46] := by decide +kernel
 example : boundedCopy [78, 111, 32, 69] 3 [0xA5, 0xA5, 0xA5, 0xA5, 0xA5] = [78, 111, 0, 0xA5, 0xA5] := by decide
 example : boundedCopy [78, 111, 32, 69] 1 [0xA5, 0xA5] = [0, 0xA5] := by decide
 example : boundedCopy [78, 111] 5 [1, 2, 3, 4, 5, 6] = [78, 111, 0, 4, 5, 6] := by decide
